@@ -3,10 +3,13 @@ package c01
 import (
 	"bytes"
 	"fmt"
+	"os"
+	"sync/atomic"
 	"testing"
 	"time"
 
 	tcpip "github.com/brewlin/net-protocol/protocol"
+	"github.com/brewlin/net-protocol/stack"
 	"pgregory.net/rapid"
 	"verifharness/codec"
 	"verifharness/evid"
@@ -350,6 +353,12 @@ type SendCase struct {
 func runSend(c SendCase) *evid.Failure {
 	env := rawpeer.NewEnv(c.Env)
 	defer env.Close()
+	if os.Getenv("C01_DBG") != "" {
+		tp := time.Now()
+		env.Stack.AddTCPProbe(func(st stack.TCPEndpointState) {
+			fmt.Printf("%8.1fms probe: una=%d nxt=%d wnd=%d outstanding=%d cwnd=%d rto=%v frActive=%v dupacks=? segflags\n", float64(time.Since(tp).Microseconds())/1000, uint32(st.Sender.SndUna)-c.StackISS-1, uint32(st.Sender.SndNxt)-c.StackISS-1, st.Sender.SndWnd, st.Sender.Outstanding, st.Sender.SndCwnd, st.Sender.RTO, st.Sender.FastRecovery.Active)
+		})
+	}
 	// the stack is the active opener so that H2 can place its ISS
 	cs, serr := netsim.NewSock(env.Stack, 6, env.Net())
 	if serr != nil {
@@ -385,6 +394,7 @@ func runSend(c SendCase) *evid.Failure {
 	}
 	want := pattern(c.DataSeed, c.Data)
 	offered := make(chan int, 1)
+	written := int64(-1)
 	go func() {
 		rem := want
 		for len(rem) > 0 {
@@ -392,12 +402,15 @@ func runSend(c SendCase) *evid.Failure {
 			if k > len(rem) {
 				k = len(rem)
 			}
-			_, werr, ok := cs.Write(rem[:k], 20*time.Second)
+			n, werr, ok := cs.Write(rem[:k], 20*time.Second)
+			rem = rem[n:]
 			if werr != nil || !ok {
 				break
 			}
-			rem = rem[k:]
 		}
+		// what the application really handed over before it shut the write side down (a
+		// write that found no buffer space for 20 s gives up: the FIN then follows that much)
+		atomic.StoreInt64(&written, int64(len(want)-len(rem)))
 		cs.EP.Shutdown(tcpip.ShutdownWrite)
 		offered <- len(want) - len(rem)
 	}()
@@ -412,7 +425,9 @@ func runSend(c SendCase) *evid.Failure {
 	}
 	partialAcks, splits, ignored, zeroWnd := 0, 0, 0, 0
 	rightEdge := uint32(0)
+	maxAcked := uint32(0) // highest stream offset acknowledged so far
 	deadline := time.Now().Add(20 * time.Second)
+	t0 := time.Now()
 	lastLen := -1
 	for time.Now().Before(deadline) {
 		fr, ok := p.Next(700 * time.Millisecond)
@@ -421,7 +436,10 @@ func runSend(c SendCase) *evid.Failure {
 				break
 			}
 			// quiet: open the window fully and ack what we have, so the case terminates
-			p.RcvNxt = p.IRS + 1 + edge
+			if int32(edge-maxAcked) > 0 {
+				maxAcked = edge
+			}
+			p.RcvNxt = p.IRS + 1 + maxAcked
 			if finSeen && int(edge) == c.Data {
 				p.RcvNxt++
 			}
@@ -434,6 +452,9 @@ func runSend(c SendCase) *evid.Failure {
 			break
 		}
 		off := k.Seq - (p.IRS + 1)
+		if os.Getenv("C01_DBG") != "" {
+			fmt.Printf("%8.1fms <- off=%d len=%d fl=%s step=%d edge=%d wnd=%d\n", float64(time.Since(t0).Microseconds())/1000, off, len(k.Payload), codec.FlagString(k.Flags), step, edge, p.Wnd)
+		}
 		if len(k.Payload) > 0 || k.Flags&codec.FIN != 0 {
 			if int(off)+len(k.Payload) > c.Data {
 				return evid.Failf("invented", "raw receiver: segment covers stream offsets [%d,%d) but only %d bytes were ever written", off, int(off)+len(k.Payload), c.Data)
@@ -445,8 +466,11 @@ func runSend(c SendCase) *evid.Failure {
 				}
 				return evid.Failf("wire-content", "raw receiver: segment at stream offset %d (len %d) carries wrong bytes from offset %d on (misplaced, duplicated or lost data)", off, len(k.Payload), int(off)+at)
 			}
+			if w := atomic.LoadInt64(&written); k.Flags&codec.FIN != 0 && int64(int(off)+len(k.Payload)) != w {
+				return evid.Failf("fin-position", "raw receiver: FIN at stream offset %d but %d bytes were written before the shutdown", int(off)+len(k.Payload), w)
+			}
 			if k.Flags&codec.FIN != 0 && int(off)+len(k.Payload) != c.Data {
-				return evid.Failf("fin-position", "raw receiver: FIN at stream offset %d but %d bytes were written", int(off)+len(k.Payload), c.Data)
+				evid.Label("raw-send:application-gave-up-writing")
 			}
 		}
 		if len(k.Payload) == 0 && k.Flags&codec.FIN == 0 {
@@ -477,6 +501,11 @@ func runSend(c SendCase) *evid.Failure {
 		ackTo := edge
 		if st.Mode == 1 && len(k.Payload) > 1 && off+uint32(len(k.Payload)) == edge {
 			ackTo = edge - uint32(len(k.Payload))/2
+			if int32(ackTo-maxAcked) < 0 {
+				// (the segment is a retransmission of data acknowledged before: a cumulative
+				// acknowledgement is never taken back)
+				ackTo = maxAcked
+			}
 			partialAcks++
 			// un-receive the tail so that it must be retransmitted / resent
 			for i := ackTo; i < edge; i++ {
@@ -486,6 +515,9 @@ func runSend(c SendCase) *evid.Failure {
 		}
 		if st.Mode == 2 {
 			continue
+		}
+		if int32(ackTo-maxAcked) > 0 {
+			maxAcked = ackTo
 		}
 		p.RcvNxt = p.IRS + 1 + ackTo
 		if finSeen && int(edge) == c.Data && ackTo == edge {
